@@ -48,6 +48,8 @@ def scenarios():
     sc['via-proxy'] = dict(steps=[('raw', F(1, b't')), ('eof',)], proxy=True)
     sc['tls'] = dict(steps=[('raw', F(1, b't') + F(9, b'')), ('eof',)], url='wss://example.com/')
     sc['connect-fail'] = dict(steps=[], gai=True)
+    sc['request-write-fails'] = dict(steps=[('eof',)], faults=[['sendall', 0, 'reset']])
+    sc['request-write-times-out'] = dict(steps=[('eof',)], faults=[['sendall', 0, 'timeout']])
     sc['eof-at-once'] = dict(steps=[('eof',)])
     sc['reset-mid-stream'] = dict(steps=[('raw', F(1, b't')), ('err', 'reset')])
     return sc
@@ -71,7 +73,8 @@ def make(name):
                 off += len(st[1])
                 cuts.append(off)
     w = H.World(lambda _i: simnet.ScriptServer(full), cuts=cuts, horizon=sc.get('horizon', 0.0),
-                gai_error=bool(sc.get('gai')), budget=20000)
+                gai_error=bool(sc.get('gai')), budget=20000,
+                faults={(f[0], f[1]): f[2] for f in sc.get('faults', ())})
     url = sc.get('url', 'ws://example.com/')
     wskw = dict(proxies={'http': 'http://proxy.local:3128'}) if sc.get('proxy') else dict(proxies={})
     ckw = dict(sc.get('ckw') or dict(ping_rate=0))
@@ -106,6 +109,9 @@ def cases(tier, seed, i, n):
             for k in range(len(names)):
                 for mech in MECHS:
                     yield dict(kind='sim', sc=name, k=k, mech=mech)
+        for r, mech in enumerate(MECHS):
+            if tier == 'thorough' or r % 2 == 0:
+                yield dict(kind='busy-writer', mech=mech)
         reals = [('rst', 3), ('fin', 3), ('text', 1), ('text', 2), ('text', 3), ('text', 4), ('idle', 4), ('idle', 5)]
         for r, (mode, k) in enumerate(reals):
             for mech in MECHS if tier == 'thorough' else (MECHS[r % 4], MECHS[(r + 1) % 4]):
@@ -178,6 +184,8 @@ class _FakeRun(object):
 def run_case(case, acc):
     if case['kind'] == 'real':
         return run_real(case, acc)
+    if case['kind'] == 'busy-writer':
+        return run_busy_writer(case, acc)
     name, k, mech = case['sc'], case['k'], case['mech']
     names, how, end = trace(name)
     w, url, wskw, ckw, pol = make(name)
@@ -282,3 +290,70 @@ def run_real(case, acc):
         acc.violation(key, 'C13 %s (real loopback %s, event %d, %s)' % (key, mode, k, mech), case, detail)
     else:
         acc.cls('real/%s/%d/%s' % (mode, k, mech))
+
+
+# ------------------------------------------------------------------ another thread is in the middle of a send
+def run_busy_writer(case, acc):
+    """The loop is abandoned while another thread is inside sendall (holding the write lock for 1.5 s):
+    the library must still close the socket once that send has finished."""
+    import threading
+    import time
+    mech = case['mech']
+    w = H.World(H.hs_server([]), split_send=True, horizon=1000.0)
+    inside = threading.Event()
+    release = threading.Event()
+
+    def hook(tag):
+        inside.set()
+        release.wait(10)
+    w.yield_hook = hook
+    errs = []
+    with simnet.Installed(w):
+        ws = env.WebSocket('ws://example.com/', proxies={})
+        started = []
+
+        def writer():
+            try:
+                ws.send_binary(b'x' * 64)
+            except Exception as e:   # noqa
+                errs.append(repr(e))
+
+        seen = []
+
+        def genf():
+            for ev in ws.connect(session_class=simnet.SimSession, ping_rate=0, poll=1.0):
+                if ev.name == 'poll' and not started:
+                    t = threading.Thread(target=writer, daemon=True)
+                    started.append(t)
+                    t.start()
+                    inside.wait(5)
+                    threading.Timer(1.5, release.set).start()
+                yield ev
+        t0 = time.time()
+        try:
+            abandon(genf, ws, 3, mech)      # events: connecting, connected, ready, poll
+        except (simnet.Quiesced, simnet.BudgetExceeded) as e:
+            acc.inconclusive.append('busy-writer run ended early: %r' % (e,))
+            release.set()
+            return
+        release.set()
+        for t in started:
+            t.join(5)
+        del ws
+        gc.collect()
+    acc.count2('oracle', 'abandon_points_checked')
+    acc.count2('oracle', 'busy_writer_runs')
+    took = time.time() - t0
+    key = None
+    detail = dict(sockets=[(s_.sid, s_.closed) for s_ in w.socks], writer_errors=errs, took=round(took, 2), started=bool(started))
+    if not started or not inside.is_set():
+        acc.inconclusive.append('busy-writer: writer thread never reached sendall: %r' % (detail,))
+        return
+    for s_ in w.socks:
+        acc.count2('oracle', 'sockets_checked')
+        if not s_.closed:
+            key = 'socket-left-open-after-abandon:while-another-thread-was-sending'
+    if key:
+        acc.violation(key, 'C13 %s (mechanism %s)' % (key, mech), case, detail)
+    else:
+        acc.cls('busy-writer/%s' % mech)
